@@ -150,6 +150,15 @@ def _vnadata_family(rng):
                    "!vnadata_get_z0_vector $vd1",
                    "!vnadata_save $vd1 \"x2.s%dp\"" % n,
                    "vnadata_set_all_z0 $vd1 0x1.9p+5 0x0p+0"])
+    # saves that cannot open their file, on an object whose format was given
+    # without a parameter letter (it follows the type): refused for the path,
+    # nothing a getter answers may change
+    fm = str(rng.choice(["ma", "ri", "dB", "ri,Zma"]))
+    blocks.append(["vnadata_set_format $vd1 %s" % qs(fm),
+                   "?vnadata_save $vd1 \"no-such-dir/x.npd\"",
+                   "?vnadata_save $vd1 \"no-such-dir/x.s%dp\"" % n,
+                   "?vnadata_save $vd1 \".\"",
+                   "vnadata_get_format $vd1"])
     order = rng.permutation(len(blocks))
     for i in order:
         L += blocks[i]
